@@ -16,7 +16,7 @@ from ..common import Report, MachineryError, load_known_findings, seed
 OWN = {"C08": ("C08_",), "C09": ("C09_", "C08_ParserFailed"), "C10": ("C10_", "C08_Count")}
 SIZES = {  # tier -> (random bytes, template instructions, chunk size)
     "quick": dict(blob=120000, templates=12000, chunk=40, i386=0),
-    "thorough": dict(blob=400000, templates=60000, chunk=40, i386=60000),
+    "thorough": dict(blob=1200000, templates=150000, chunk=40, i386=250000),
 }
 
 
@@ -70,6 +70,9 @@ def real_objdump_cases(rnd, tier, prop):
         lines = text.split("\n")
         for ch in objdump.chunks(lines, sz["chunk"]):
             chunks.append((origin, ch))
+        # and the head of every listing in one piece (behaviour that depends on what was parsed earlier in the
+        # same listing -- caches, memo tables -- does not show on 40-line chunks)
+        chunks.append((origin + " (first 1200 lines in one piece)", lines[:1200]))
     return chunks
 
 
